@@ -124,6 +124,35 @@ pub fn run_hashscale(seed: u64, rounds: u64, out: &mut RunOut) {
     }
 }
 
+/// One very large cache: a single call that makes more than a million entries leave must still hash each of them once
+/// and nothing else (no rebuild by an operation that is not allowed to rebuild).
+pub fn run_hashscale_giant(n: usize, out: &mut RunOut) {
+    let base = base_entry_size();
+    ledger_reset(); ledger_strict(false);
+    let cfg = HistCfg { hk: 3, cap0: None, max: usize::MAX, universe: n as u32, events: 0, extreme: false };
+    let mut c: Cache<TH> = TH::make(usize::MAX, None, 3);
+    for id in 0..n as u32 { let _ = c.insert(TKey::new(id, 0), TVal::new(0)); }
+    let keep = 5000usize.min(n / 2);
+    let (len0, h0) = (c.len(), counts()[C_HASH]);
+    c.set_max_size(keep * base);
+    let d = counts()[C_HASH] - h0;
+    check_bound(out, &cfg, "set_max_size giant", d, len0 - c.len(), false, len0, n);
+    out.stats.count("c20_giant_cases");
+    // retain that rejects almost everything, clear, drain: bounded in the same way
+    for id in n as u32..(n + n / 4) as u32 { let _ = c.insert(TKey::new(id, 0), TVal::new(0)); }
+    c.set_max_size(usize::MAX);
+    for id in 0..(n / 2) as u32 { let _ = c.insert(TKey::new(id, 0), TVal::new(0)); }
+    let (len0, h0) = (c.len(), counts()[C_HASH]);
+    c.retain(|k, _| k.id % 1000 == 0);
+    let d = counts()[C_HASH] - h0;
+    check_bound(out, &cfg, "retain giant", d, len0 - c.len(), false, len0, n);
+    let h0 = counts()[C_HASH];
+    c.clear();
+    if counts()[C_HASH] != h0 { fail(out, "C20", "hash-free", format!("clear of a giant cache computed {} key hashes", counts()[C_HASH] - h0), &cfg, "hashscale giant".into()); }
+    drop(c);
+    ledger_reset();
+}
+
 fn check_bound(out: &mut RunOut, cfg: &HistCfg, name: &str, hashes: u64, dep: usize, rebuilt: bool, len0: usize, n: usize) {
     let bound = 2 + dep as u64 + if rebuilt { len0 as u64 + 1 } else { 0 };
     out.stats.events += 1;
@@ -305,6 +334,22 @@ pub fn run_hugecap(out: &mut RunOut) {
             out.stats.eval("C14", mix(&[9100, 1])); out.stats.eval("C13", mix(&[9100, 1])); out.stats.count("c14_hugecap_clones"); out.stats.events += 1;
             if d.capacity() < c.capacity() || d.len() != 3 { fail(out, "C14", "clone-capacity", format!("LruCache<u32, [u8; 65536]> with capacity {}: clone has capacity {}", c.capacity(), d.capacity()), &cfg, "hugecap large-inline".into()); }
             if c.capacity() < 14003 - 3 { fail(out, "C13", "reserve-bound", format!("try_reserve(14000) left capacity {}", c.capacity()), &cfg, "hugecap".into()); }
+        } else { out.stats.count("c14_hugecap_skipped_alloc_refused"); }
+    }
+    // (c) a table with more than 2^25 buckets (about 2 GiB of address space, of which only the control bytes are touched):
+    //     live entries moved into it must still be found, in the same order
+    {
+        let mut c: LruCache<u32, u32> = LruCache::new(usize::MAX);
+        for i in 0..2000u32 { let _ = c.insert(i.wrapping_mul(2654435761), i); }
+        if c.try_reserve(30_000_000).is_ok() {
+            out.stats.eval("C04", mix(&[9100, 3])); out.stats.eval("C13", mix(&[9100, 3])); out.stats.count("c14_hugecap_clones"); out.stats.count("c04_lookups_in_table_beyond_2_25_buckets"); out.stats.events += 1;
+            let missing = (0..2000u32).filter(|i| c.peek(&i.wrapping_mul(2654435761)) != Some(i)).count();
+            if missing > 0 { fail(out, "C04", "lookup", format!("after try_reserve(30000000) on 2000 entries, {} keys can no longer be looked up", missing), &cfg, "hugecap beyond 2^25 buckets".into()); }
+            let order_ok = c.iter().map(|(_, v)| *v).eq(0..2000u32);
+            if !order_ok || c.len() != 2000 { fail(out, "C13", "not-transparent", "try_reserve(30000000) changed contents or order".to_string(), &cfg, "hugecap".into()); }
+            c.shrink_to_fit();
+            let missing = (0..2000u32).filter(|i| c.peek(&i.wrapping_mul(2654435761)) != Some(i)).count();
+            if missing > 0 || c.capacity() < 2000 { fail(out, "C04", "lookup", format!("after shrink_to_fit from the huge table, {} keys missing, capacity {}", missing, c.capacity()), &cfg, "hugecap".into()); }
         } else { out.stats.count("c14_hugecap_skipped_alloc_refused"); }
     }
     // (b) small entries, twelve million spare buckets (several hundred MiB of address space)
